@@ -196,7 +196,7 @@ class ClassTable:
                     FieldInfo(
                         name=node.target.id,
                         annotation=node.annotation,
-                        ann_text=ast.unparse(node.annotation),
+                        ann_text=_expand_type_aliases(node.annotation),
                         static=static,
                         has_default=has_default,
                         owner=info,
@@ -510,6 +510,37 @@ class ClassTable:
     def is_tuple_attr(self, cls: ClassInfo, name: str) -> bool:
         value, _ = self.class_attr(cls, name)
         return isinstance(value, ast.Tuple)
+
+
+def _expand_type_aliases(annotation: ast.AST, depth: int = 0) -> str:
+    """The annotation text with module-level type aliases (`IndexType = int | slice | ...`) written out."""
+    import copy
+
+    module = getattr(annotation, '_module', None)
+    if module is None or depth > 3:
+        return ast.unparse(annotation)
+
+    class T(ast.NodeTransformer):
+        def visit_Name(self, n: ast.Name) -> ast.AST:
+            d = module.defs.get(n.id)
+            if isinstance(d, (ast.Assign, ast.AnnAssign)) and d.value is not None and isinstance(d.value, (ast.BinOp, ast.Subscript, ast.Name, ast.Attribute, ast.Tuple)):
+                if isinstance(d, ast.AnnAssign) and 'TypeAlias' not in ast.unparse(d.annotation):
+                    return n
+                try:
+                    return ast.parse(_expand_type_aliases(d.value, depth + 1), mode='eval').body
+                except SyntaxError:
+                    return n
+            return n
+
+    try:
+        return ast.unparse(T().visit(copy.deepcopy(_strip(annotation))))
+    except Exception:  # noqa: BLE001
+        return ast.unparse(annotation)
+
+
+def _strip(node: ast.AST) -> ast.AST:
+    """A copy of an expression without the loader's back links (so that it can be deep-copied)."""
+    return ast.parse(ast.unparse(node), mode='eval').body
 
 
 def _is_property(world: World, k: ClassInfo, fn: ast.AST) -> bool:
